@@ -19,7 +19,8 @@ RULE = (
     "column-strided view of a bigger buffer, with the same result as for a contiguous copy); reject (0-d/1-d/3-d tensors, NaN/+-inf at a "
     "drawn position, row count contradicting weights/pref/leak/minimum must raise ValueError; ConFIG exempt); "
     "history (an instance that processed 1-3 other matrices - other shapes, and other dtypes where no configured vector "
-    "pins the dtype - returns bitwise what a fresh instance returns; "
+    "pins the dtype, optionally all written in place into ONE reused tensor object - returns bitwise what a fresh instance "
+    "returns on a fresh tensor; "
     "randomised ones under equal torch.manual_seed); homogeneity A(tJ) ~ t A(J) for t = 2^k (all aggregators; exact "
     "scaling, so ties and rank decisions replicate) and t = 2^k mu (continuous aggregators; pinv/eigh based ones on "
     "full-row-rank matrices only), UPGrad/DualProj/CAGrad only while s and t s >= 2 norm_eps. Non-trivial = scale "
@@ -36,7 +37,7 @@ LEVEL_TEXT = (
 )
 LEVEL_NOTE = "Trusted: torch CPU kernels, the float64 margin/rank computations used to decide which relation applies."
 TECHNIQUE = "property-based testing (Hypothesis): validity + fault injection + history independence + metamorphic scaling"
-REQUIRED_CLASSES = {"history:other-dtype": 1, "total": 1, "reject": 1, "history": 1, "homog:pow2": 1, "homog:generic": 1, "scale:extreme": 1}
+REQUIRED_CLASSES = {"history:same-tensor-object": 1, "history:other-dtype": 1, "total": 1, "reject": 1, "history": 1, "homog:pow2": 1, "homog:generic": 1, "scale:extreme": 1}
 
 K = 50.0
 NAMES = list(aggs.ALL)
@@ -135,16 +136,18 @@ def _case(draw):
     case["J"] = (J * 10.0**e).tolist()
     if scenario == "history":
         hist = []
+        # half of the histories reuse ONE tensor object, overwritten in place between the calls (a gradient buffer)
+        case["same_object"] = draw(st.sampled_from([True, False]))
         for _ in range(draw(st.integers(1, 3))):
             needs_same_m = name in ("Constant",) or "pref" in spec or "leak" in spec
-            hm = m if needs_same_m else draw(st.integers(aggs.min_rows(spec), 8))
-            hn = draw(st.integers(1, 10))
+            hm = m if (needs_same_m or case["same_object"]) else draw(st.integers(aggs.min_rows(spec), 8))
+            hn = n if case["same_object"] else draw(st.integers(1, 10))
             H, _ = _matrix(draw, hm, hn, dtype, rng)
             # earlier calls may have used another dtype (allowed whenever no configured vector pins the dtype; UPGrad and
             # DualProj accept it even with a preference vector because the projection weights are cast to the Gramian's dtype)
             configured = any(k in spec for k in ("pref", "weights", "leak"))
             hd = dtype
-            if (not configured or name in ("UPGrad", "DualProj")) and draw(st.sampled_from([True, False])):
+            if (not configured or name in ("UPGrad", "DualProj")) and not case["same_object"] and draw(st.sampled_from([True, False])):
                 hd = "float32" if dtype == "float64" else "float64"
             hist.append({"J": (H * 10.0 ** draw(st.integers(-3, 3))).tolist(), "dtype": hd})
         case["history"] = hist
@@ -277,13 +280,22 @@ def run_case(case) -> Outcome:
 
     if sc == "history":
         B = aggs.make(spec, dtype)
+        same = bool(case.get("same_object"))
+        buf = torch.empty_like(Jt) if same else None
         for H in case["history"]:
             if H["dtype"] != dtype:
                 out.cls("history:other-dtype")
-            h = out.call(f"raises-in-history:{name}", _call, B, torch.tensor(H["J"], dtype=getattr(torch, H["dtype"])), case["seed"] + 1)
+            Ht = torch.tensor(H["J"], dtype=getattr(torch, H["dtype"]))
+            if same:
+                buf.copy_(Ht)  # the SAME tensor object is overwritten in place and passed again
+                Ht = buf
+                out.cls("history:same-tensor-object")
+            h = out.call(f"raises-in-history:{name}", _call, B, Ht, case["seed"] + 1)
             if h is RAISED:
                 return out
-        r2 = out.call(f"raises:{name}", _call, B, Jt, case["seed"])
+        if same:
+            buf.copy_(Jt)
+        r2 = out.call(f"raises:{name}", _call, B, buf if same else Jt, case["seed"])
         if r2 is not RAISED:
             out.check(torch.equal(r, r2), f"history-dependent:{name}",
                       f"fresh {r.tolist()} vs after {len(case['history'])} other calls {r2.tolist()}")
